@@ -694,7 +694,7 @@ impl GmWorld {
                 }
                 let exact = kv.op == "g.revf";
                 let m = self.mems.remove(&mi).unwrap();
-                let RdRes { res, consumed, left, failed_fd } = self.streams.read_into(id, |src| {
+                let RdRes { res, consumed, left, failed_fd, pos: _ } = self.streams.read_into(id, |src| {
                     with_mem!(&m, M => if exact { M.read_exact_volatile_from(ga, src, count).map(|_| count) } else { M.read_volatile_from(ga, src, count) }).map_err(|e| gerr(&e))
                 });
                 let run = Self::run_len(&lay, a, count);
@@ -945,7 +945,7 @@ impl GmWorld {
                     return "bad-id".into();
                 }
                 let exact = kv.op == "gr.revf";
-                let RdRes { res, consumed, left, failed_fd } = self.streams.read_into(id, |src| {
+                let RdRes { res, consumed, left, failed_fd, pos: _ } = self.streams.read_into(id, |src| {
                     if exact { reg.read_exact_volatile_from(ra, src, count).map(|_| count) } else { reg.read_volatile_from(ra, src, count) }.map_err(|e| gerr(&e))
                 });
                 let room = if a <= inf.len as u64 { inf.len - a as usize } else { 0 };
